@@ -88,6 +88,14 @@ ApplyDeactivate(st, o) ==
   ELSE <<TRUE, [st EXCEPT !.doc = <<>>, !.uc = NoC, !.rc = NoC, !.deact = TRUE, !.lt = o.t, !.ln = o.n,
                           !.log = Append(@, LogEntry("rc", st.rc, o))]>>
 
+(* Anchor origin: fixed by the create (it is part of the suffix data that   *)
+(* defines the DID: token 0), replaced by every applied recover with the   *)
+(* recover's own (token = the recover's content token p), left alone by    *)
+(* update and deactivate.  Derived from the log; -1: no such DID.          *)
+AnchorOriginOf(st) ==
+  LET rs == SelectSeq(st.log, LAMBDA e : e.ty = "R")
+  IN IF ~st.exists THEN -1 ELSE IF rs = <<>> THEN 0 ELSE rs[Len(rs)].p
+
 ApplyOp(st, o) ==
   CASE o.sh.ty = "U" -> ApplyUpdate(st, o)
     [] o.sh.ty = "R" -> ApplyRecover(st, o)
